@@ -79,3 +79,17 @@ impl<T, const N: usize> From<[T; N]> for IndexSet<T> {
         ensures r@ == seq_extend(Seq::<T>::empty(), a@), N == 1 ==> r@ == seq![a@[0]],   // second clause follows from the first (lemma_seq_extend_single)
     { unimplemented!() }
 }
+
+impl<T> IndexSet<T> {
+    /// IndexSet::from_iter(vec)
+    #[verifier::external_body]
+    pub fn from_iter(v: Vec<T>) -> (r: Self) ensures r@ == seq_extend(Seq::<T>::empty(), v@) { unimplemented!() }
+}
+
+/// indexmap: "Two sets are equal if they contain the same elements, order does not matter"
+pub open spec fn same_elements<T>(a: Seq<T>, b: Seq<T>) -> bool { forall|x: T| a.contains(x) == b.contains(x) }
+
+impl<T> PartialEq for IndexSet<T> {
+    #[verifier::external_body]
+    fn eq(&self, other: &Self) -> (b: bool) ensures b == same_elements(self@, other@) { unimplemented!() }
+}
